@@ -1029,3 +1029,15 @@ fn p1_page(page: Page<Size4KiB>, recursive_index: PageTableIndex) -> Page {
         page.p2_index(),
     )
 }
+
+/// Verification hook: the pages through which the recursive mapper reaches the level 3, 2 and 1
+/// tables of `page` (the private `p3_page`/`p2_page`/`p1_page`), as pure functions of the
+/// recursive index.
+#[cfg(feature = "verif_hooks")]
+pub fn verif_table_pages(page: Page<Size4KiB>, recursive_index: PageTableIndex) -> (Page, Page, Page) {
+    (
+        p3_page(page, recursive_index),
+        p2_page(page, recursive_index),
+        p1_page(page, recursive_index),
+    )
+}
